@@ -1,5 +1,6 @@
 """C13 — mixing matrices extracted from a network (JointExcessJointDegree.get_ejks, called
 1..4 times on ONE extractor object; JointExcessDegree.get_ejk) vs Model/Mixing.v."""
+import json
 from fractions import Fraction
 
 from harness import core
@@ -161,15 +162,27 @@ def _snapshot(case, r):
 
 
 def build_graph(case):
+    """vertices are inserted in a case-dependent ORDER and carry case-dependent integer LABELS (neither contiguous nor
+    in insertion order for two thirds of the cases): vertex identity must never be confused with position."""
     import networkx as nx
+    import random as _r
     G = nx.Graph()
     from gcmpy.names.network_names import NetworkNames
-    for v, k in enumerate(case["jds"]):
-        G.add_node(v)
-        G.nodes[v][NetworkNames.JOINT_DEGREE] = tuple(k)
-    for u, v, t in case["edges"]:
-        G.add_edge(u, v)
-        G.edges[u, v][NetworkNames.TOPOLOGY] = _tname(case, t)
+    n = len(case["jds"])
+    h = _r.Random(hash(json.dumps([case["jds"], case["edges"]])) & 0xFFFFFFF)
+    mode = h.randrange(3)
+    order = list(range(n))
+    label = list(range(n))
+    if mode >= 1:
+        h.shuffle(order)
+    if mode == 2:
+        label = h.sample(range(0, 3 * n + 5), n)
+    for v in order:
+        G.add_node(label[v], tag="v%d" % v)
+        G.nodes[label[v]][NetworkNames.JOINT_DEGREE] = tuple(case["jds"][v])
+    for i, (u, v, t) in enumerate(case["edges"]):
+        G.add_edge(label[u], label[v], w=i)
+        G.edges[label[u], label[v]][NetworkNames.TOPOLOGY] = _tname(case, t)
     return G
 
 
